@@ -13,13 +13,16 @@ TReset ==
   /\ IsEvent("Reset")
   /\ phase' = "New" /\ pol' = Ev.pol /\ box' = Ev.box /\ max' = Ev.max
   /\ obj' = [quad |-> Ev.kind = "quad", inact |-> Ev.inact,
-              conv |-> IF Ev.opt = "NewtonBacktrack" THEN "none"
+              \* no convergence claim for the line search, nor when only a sub-list of the coordinates is optimised
+              \* (block-wise histories: the minimiser of the restricted problem is not the one the driver knows)
+              conv |-> IF Ev.opt = "NewtonBacktrack" \/ ~Ev.full THEN "none"
                        ELSE IF Ev.opt \in {"Brent", "GoldenSection"} THEN "x" ELSE "f"]
   /\ cnt' = 0 /\ steps' = 0 /\ tol' = FALSE /\ s0' = NoRank /\ held' = NoRank /\ pend' = 0 /\ lo' = NoRank /\ touched' = FALSE
   /\ back' = "New" /\ rep' = NoRep /\ br' = NoRep
   /\ infeas' = FALSE /\ overrun' = FALSE /\ lateStep' = FALSE /\ badRaise' = FALSE /\ earlyOk' = FALSE
 
 TOptEarly   == IsEvent("OptEarly")   /\ OptEarly(Ev.r)
+TRebox      == IsEvent("Rebox")      /\ Rebox(Ev.box, Ev.inact)
 TInitBegin  == IsEvent("InitBegin")  /\ InitBegin(Ev.f0, Ev.sf)
 TEvals      == IsEvent("Evals")      /\ EvalMany(Ev.pts)
 TInitEnd    == IsEvent("InitEnd")    /\ InitEnd(Ev.r)
@@ -36,7 +39,7 @@ TBrBegin    == IsEvent("BrBegin")    /\ BrBegin
 TBracket    == /\ IsEvent("Bracket")
                /\ IF Ev.r = "ok" THEN Bracket("ok", Ev.x, Ev.f) ELSE Bracket(Ev.r, <<>>, <<>>)
 
-TraceNext == \/ TReset \/ TOptEarly \/ TInitBegin \/ TEvals \/ TInitEnd \/ TClone \/ TMStepBegin
+TraceNext == \/ TReset \/ TOptEarly \/ TRebox \/ TInitBegin \/ TEvals \/ TInitEnd \/ TClone \/ TMStepBegin
              \/ TStepDone \/ TMStepEnd \/ TOptBegin \/ TFinish \/ TBrBegin \/ TBracket
 
 TraceInit ==
